@@ -1221,4 +1221,190 @@ Proof.
       * right. destruct (req_result s0 (Some ETransition)) as [s5 o5] eqn:E5. apply Hreq in E5. destruct E5 as (-> & _). invc H. repeat constructor.
 Qed.
 
+
+(* ------------------------------------------------------------------ the invariant over whole schedules *)
+Definition sched_inv (g : gm) (A Rel : list nat) (s : st) : Prop :=
+  (forall x, In x (hactive (gh g)) -> In x A) /\ List.length A <= 1 /\
+  (forall x, In x A -> ~ In x Rel) /\ (forall x, alookup x (futs s) = Some true -> In x Rel).
+Definition INV (g : gm) (A Rel : list nat) (s : st) : Prop := HA g s /\ sched_inv g A Rel s.
+
+Definition nextA (A : list nat) (e : event) : list nat :=
+  match e with EvReqSuspend sid _ _ => sid :: A | EvRelease sid => remove_nat sid A | _ => A end.
+Definition nextRel (Rel : list nat) (e : event) : list nat :=
+  match e with EvRelease sid => sid :: Rel | _ => Rel end.
+Definition ev_ok (A Rel : list nat) (e : event) : bool :=
+  match e with
+  | EvReqSuspend sid _ _ => is_nil A && negb (mem_nat sid Rel)
+  | EvReqPause false => is_nil A
+  | EvMain (ACall _) => is_nil A
+  | _ => true
+  end.
+
+Lemma In_remove_nat x y l : In x (remove_nat y l) <-> In x l /\ x <> y.
+Proof.
+  unfold remove_nat. rewrite filter_In. split; intros [H1 H2]; (split; [exact H1|]).
+  - intros E. subst. rewrite Nat.eqb_refl in H2. discriminate H2.
+  - apply negb_true_iff. apply Nat.eqb_neq. intros E. apply H2. symmetry; exact E.
+Qed.
+Lemma remove_nat_length y l : List.length (remove_nat y l) <= List.length l.
+Proof. unfold remove_nat. induction l as [|z l IH]; cbn; [lia|]. destruct (negb (Nat.eqb y z)); cbn; lia. Qed.
+Lemma mem_nat_false x l : mem_nat x l = false -> ~ In x l.
+Proof.
+  unfold mem_nat. intros H Hin. assert (K : existsb (Nat.eqb x) l = true) by (apply existsb_exists; exists x; split; [exact Hin | apply Nat.eqb_refl]).
+  congruence.
+Qed.
+Lemma is_nil_true {X} (l : list X) : is_nil l = true -> l = [].
+Proof. destruct l; [reflexivity | discriminate]. Qed.
+
+Lemma futs_inv_next e f Rel :
+  (forall x, alookup x f = Some true -> In x Rel) ->
+  forall x, alookup x (nextfuts e f) = Some true -> In x (nextRel Rel e).
+Proof.
+  intros K x. destruct e; cbn [nextfuts nextRel]; try apply K.
+  - destruct (amem sid f); [apply K|]. rewrite alookup_aset. destruct (Nat.eqb x sid); [discriminate | apply K].
+  - rewrite alookup_aset. destruct (Nat.eqb x sid) eqn:E; [apply Nat.eqb_eq in E; subst; left; reflexivity | intros H; right; apply K; exact H].
+Qed.
+
+Lemma INV_idle g1 o A' Rel' s' :
+  hgood (gh g1) = true -> hactive (gh g1) = [] -> hreq (gh g1) = None ->
+  List.length A' <= 1 -> (forall x, In x A' -> ~ In x Rel') -> (forall x, alookup x (futs s') = Some true -> In x Rel') ->
+  INV (gobs g1 o) A' Rel' s'.
+Proof.
+  intros G1 G3 G2 I2 I3 I4. destruct (gobs_idle o g1 G3 G2) as (B1 & B2 & B3).
+  split; [unfold HA; rewrite B1, B3; auto|]. unfold sched_inv. rewrite B1. repeat split; auto. intros x [].
+Qed.
+
+Theorem step_INV g A Rel (s : st) e s' o :
+  INV g A Rel s -> ev_ok A Rel e = true -> step presume plan_of dev s e = (s', o) ->
+  gnb (gobs (g_item g (TEv e)) o) = true -> gpl (gobs (g_item g (TEv e)) o) = true ->
+  INV (gobs (g_item g (TEv e)) o) (nextA A e) (nextRel Rel e) s'.
+Proof.
+  intros [HA0 (I1 & I2 & I3 & I4)] Hok H Hnb Hpl.
+  assert (Hidle : A = [] -> hactive (gh g) = []).
+  { intros ->. destruct (hactive (gh g)) as [|x l] eqn:E; [reflexivity|]. exfalso. apply (I1 x). left; reflexivity. }
+  assert (I4' : e <> EvTask -> forall x, alookup x (futs s') = Some true -> In x (nextRel Rel e)).
+  { intros Hne. rewrite (step_futs _ _ _ _ Hne H). apply futs_inv_next. exact I4. }
+  destruct HA0 as [G1 G3].
+  assert (Hq : quiet_ev e = true -> INV (gobs (g_item g (TEv e)) o) (nextA A e) (nextRel Rel e) s').
+  { intros Hqe. destruct (step_quiet _ _ _ _ Hqe H) as (F & Q1 & Q2 & Q3).
+    assert (Hne : e <> EvTask) by (intros ->; discriminate Hqe).
+    assert (T : hgood (gh (g_item g (TEv e))) = hgood (gh g) /\ hactive (gh (g_item g (TEv e))) = hactive (gh g) /\
+                nextA A e = A /\ nextRel Rel e = Rel).
+    { destruct e as [a|a| | |defer|rs| | |sid pre post|sid|sid ok| |]; try discriminate Hqe; cbn; auto. }
+    destruct T as (T1 & T2 & -> & T4). specialize (I4' Hne). rewrite T4 in *.
+    destruct (gobs_safe o (g_item g (TEv e)) F) as (B1 & B2 & _).
+    split.
+    - unfold HA. rewrite B1, T1. split; [exact G1|]. rewrite T2 in B2.
+      destruct G3 as [G3|(sid & G3 & HD)].
+      + left. destruct B2 as [B2|B2]; congruence.
+      + destruct B2 as [B2|B2]; [|left; exact B2]. right. exists sid. split; [congruence|].
+        eapply heldA_quiet; eassumption.
+    - unfold sched_inv. repeat split; auto. intros x Hx. apply I1. rewrite T2 in B2. destruct B2 as [B2|B2]; rewrite B2 in Hx; [exact Hx | destruct Hx]. }
+  destruct e as [a|a| | |defer|rs| | |sid pre post|sid|sid ok| |]; try (apply Hq; reflexivity).
+  - (* main thread *)
+    destruct a; try (apply Hq; reflexivity).
+    cbn [ev_ok] in Hok. apply is_nil_true in Hok. apply INV_idle; cbn; auto; try (apply Hidle; exact Hok).
+    apply I4'. discriminate.
+  - (* the task *)
+    assert (Hf : forall sid, hactive (gh g) = [sid] -> alookup sid (futs s) <> Some true).
+    { intros sid E Hx. apply (I3 sid); [apply I1; rewrite E; left; reflexivity | apply I4; exact Hx]. }
+    cbn [step] in H. pose proof (held_task g s s' o (conj G1 G3) Hf H Hnb Hpl) as HA'.
+    split; [exact HA'|]. cbn [nextA nextRel]. unfold sched_inv. repeat split; auto.
+    + intros x Hx. apply I1. destruct (g_task g) as (_ & T2 & T3).
+      destruct (gobs_active_mono o (g_item g (TEv EvTask)) T3) as [[B|B] _]; rewrite B in Hx; [rewrite T2 in Hx; exact Hx | destruct Hx].
+    + rewrite (aux_futs _ _ (task_step_aux _ _ _ _ _ _ _ _ H)). exact I4.
+  - (* pause request *)
+    destruct defer; [apply Hq; reflexivity|].
+    cbn [ev_ok] in Hok. apply is_nil_true in Hok. apply INV_idle; cbn; auto; try (apply Hidle; exact Hok).
+    apply I4'. discriminate.
+  - apply INV_idle; cbn; auto. apply I4'. discriminate.
+  - apply INV_idle; cbn; auto. apply I4'. discriminate.
+  - apply INV_idle; cbn; auto. apply I4'. discriminate.
+  - (* suspension request *)
+    cbn [ev_ok] in Hok. apply andb_true_iff in Hok. destruct Hok as [Hok1 Hok2]. apply is_nil_true in Hok1. subst A.
+    apply negb_true_iff, mem_nat_false in Hok2. pose proof (Hidle eq_refl) as Ha.
+    assert (I4'' : forall x, alookup x (futs s') = Some true -> In x Rel) by (apply I4'; discriminate).
+    cbn [nextA nextRel].
+    assert (S2 : List.length [sid] <= 1) by (cbn; lia).
+    assert (S3 : forall x, In x [sid] -> ~ In x Rel) by (intros x [<-|[]]; exact Hok2).
+    destruct (suspend_step_cases _ _ _ _ _ _ H) as [(-> & E1 & E2 & E3 & E4)|F].
+    + (* accepted *)
+      assert (K : hgood (gh (gobs (g_item g (TEv (EvReqSuspend sid pre post))) [OState Running Suspending; OReq true])) = hgood (gh g) /\
+                  hactive (gh (gobs (g_item g (TEv (EvReqSuspend sid pre post))) [OState Running Suspending; OReq true])) = [sid]).
+      { cbn. rewrite Ha. auto. }
+      destruct K as [K1 K2]. split.
+      * unfold HA. rewrite K1, K2. split; [exact G1|]. right. exists sid. split; [reflexivity|].
+        unfold heldA. rewrite E2. destruct (pc s) eqn:Epc; try exact I; try exact E3.
+        all: left; repeat split; try assumption; eexists _, _, _; exact E4.
+      * unfold sched_inv. rewrite K2. repeat split; auto.
+    + (* not accepted *)
+      assert (T : hgood (gh (g_item g (TEv (EvReqSuspend sid pre post)))) = hgood (gh g) /\
+                  hactive (gh (g_item g (TEv (EvReqSuspend sid pre post)))) = hactive (gh g)) by (cbn; auto).
+      destruct T as [T1 T2]. destruct (gobs_safe o (g_item g (TEv (EvReqSuspend sid pre post))) F) as (B1 & B2 & _). rewrite T2, Ha in B2.
+      assert (B : hactive (gh (gobs (g_item g (TEv (EvReqSuspend sid pre post))) o)) = []) by (destruct B2; assumption).
+      split; [unfold HA; rewrite B1, T1, B; auto|]. unfold sched_inv. rewrite B. repeat split; auto. intros x [].
+  - (* release *)
+    cbn [step] in H. invc H. rewrite gobs_nil. cbn [nextA nextRel].
+    assert (T : hgood (gh (g_item g (TEv (EvRelease sid)))) = hgood (gh g) /\
+                hactive (gh (g_item g (TEv (EvRelease sid)))) = remove_nat sid (hactive (gh g))) by (cbn; auto).
+    destruct T as [T1 T2]. split.
+    + unfold HA. rewrite T1, T2. split; [exact G1|]. destruct G3 as [G3|(x & G3 & HD)]; [left; rewrite G3; reflexivity|].
+      rewrite G3. cbn. destruct (Nat.eqb sid x); cbn; [left; reflexivity|]. right. exists x. split; [reflexivity|]. exact HD.
+    + unfold sched_inv. rewrite T2. repeat split.
+      * intros x Hx. apply In_remove_nat in Hx. apply In_remove_nat. split; [apply I1|]; tauto.
+      * pose proof (remove_nat_length sid A). lia.
+      * intros x Hx [Hr|Hr]; apply In_remove_nat in Hx; [subst; tauto | apply (I3 x); tauto].
+      * apply (I4' ltac:(discriminate)).
+Qed.
+
+
+Lemma sched_split A Rel e evs :
+  overlap_from A (e :: evs) = false -> pause_inside_from A (e :: evs) = false ->
+  call_inside_from A (e :: evs) = false -> stale_from Rel (e :: evs) = false ->
+  ev_ok A Rel e = true /\ overlap_from (nextA A e) evs = false /\ pause_inside_from (nextA A e) evs = false /\
+  call_inside_from (nextA A e) evs = false /\ stale_from (nextRel Rel e) evs = false.
+Proof.
+  destruct e as [a|a| | |defer|rs| | |sid pre post|sid|sid ok| |]; try destruct a; try destruct defer;
+    cbn [overlap_from pause_inside_from call_inside_from stale_from ev_ok nextA nextRel];
+    intros H1 H2 H3 H4;
+    repeat match goal with Hx : _ || _ = false |- _ => apply orb_false_iff in Hx; destruct Hx end;
+    repeat match goal with Hx : negb _ = false |- _ => apply negb_false_iff in Hx end;
+    repeat split; auto.
+  apply andb_true_iff. split; [assumption | apply negb_true_iff; assumption].
+Qed.
+
+Lemma run_INV evs : forall g A Rel (s : st),
+  INV g A Rel s ->
+  overlap_from A evs = false -> pause_inside_from A evs = false -> call_inside_from A evs = false -> stale_from Rel evs = false ->
+  gnb (g_run g (trace P presume plan_of D dev s evs)) = true -> gpl (g_run g (trace P presume plan_of D dev s evs)) = true ->
+  hgood (gh (g_run g (trace P presume plan_of D dev s evs))) = true.
+Proof.
+  induction evs as [|e evs IH]; intros g A Rel s HI H1 H2 H3 H4 Hnb Hpl.
+  - cbn. apply HI.
+  - destruct (sched_split _ _ _ _ H1 H2 H3 H4) as (Hok & K1 & K2 & K3 & K4).
+    cbn [trace] in *. destruct (step presume plan_of dev s e) as [s1 o1] eqn:Es.
+    change (g_run g (TEv e :: map TObs o1 ++ trace P presume plan_of D dev s1 evs))
+      with (g_run (g_item g (TEv e)) (map TObs o1 ++ trace P presume plan_of D dev s1 evs)) in *.
+    rewrite g_run_app in *. change (g_run (g_item g (TEv e)) (map TObs o1)) with (gobs (g_item g (TEv e)) o1) in *.
+    eapply IH; try eassumption.
+    eapply step_INV; try eassumption; [eapply gnb_mono; exact Hnb | eapply gpl_mono; exact Hpl].
+Qed.
+
+(* THE THEOREM: outside the finding classes C11-a / C11-b and inside the well-formedness conditions, every run
+   holds every accepted suspension until its release *)
+Theorem hold_ok_all_runs d paus stag rec evs :
+  finding_C11_a evs = false -> finding_C11_b evs = false ->
+  call_while_suspended evs = false -> stale_future evs = false ->
+  no_bad (snd (run presume plan_of dev (init P D d paus stag rec) evs)) = true ->
+  plain_susp_plans (trace P presume plan_of D dev (init P D d paus stag rec) evs) = true ->
+  hold_ok (trace P presume plan_of D dev (init P D d paus stag rec) evs) = true.
+Proof.
+  intros H1 H2 H3 H4 Hnb Hpl. unfold hold_ok. change hold0 with (gh g0). rewrite <- gh_run.
+  apply run_INV with (A := []) (Rel := []); try assumption.
+  - split; [split; [reflexivity | left; reflexivity]|]. unfold sched_inv. cbn. repeat split; auto; try lia.
+    intros x Hx. discriminate Hx.
+  - rewrite gnb_run, trace_obs. exact Hnb.
+Qed.
+
 End C11.
+
